@@ -112,3 +112,35 @@ func Harness_C05_on_demand_whole_pipeline_pairs_T() {
 	onDemand := c01ProgReported(df.VerifBuildDirectFlow([]int{t1, t2}, []int{0, 1}, 1, 0, stringData), c01ProgConfig(false, true))
 	verifAssert("same-verdict-with-summarize-on-demand-on-and-off", eager == onDemand)
 }
+
+func Harness_C01_dbgfs_T() {
+	t := verifPick("transport", 0, df.VerifNumTransports-1)
+	verifAssume(df.VerifSequentialTransport(t))
+	variant := verifPick("variant", 0, 1)
+	split := verifPick("split", 0, 1)
+	sinkForm := verifPick("sink-form", 0, 1)
+	stringData := verifPick("string-data", 0, 1) == 1
+	w := df.VerifBuildDirectFlow([]int{t}, []int{variant}, split, sinkForm, stringData)
+	tag := "-" + string(rune('A'+t)) + string(rune('0'+variant)) + string(rune('0'+split)) + string(rune('0'+sinkForm))
+	if stringData {
+		tag += "s"
+	}
+	cfg := c01ProgConfig(true, false)
+	verifOneSchedule(true)
+	verifTerminatesWithin("terminates"+tag, 30000000)
+	res, _ := Analyze(cfg, w.Prog, nil)
+	verifTerminated()
+	found := false
+	if res.TaintFlows != nil {
+		for sinkNode, sources := range res.TaintFlows.Sinks {
+			if sinkNode.Instr == w.Sink {
+				for s := range sources {
+					if s.Instr == w.Source {
+						found = true
+					}
+				}
+			}
+		}
+	}
+	verifAssert("reported"+tag, found)
+}
